@@ -5,7 +5,7 @@ the right field values, and composes the same bytes from those values.
 """
 import itertools
 
-from mc import classes, core
+from mc import canon, classes, core
 from mc.ref import misc_ref as ref
 
 
@@ -18,6 +18,13 @@ def word(members):
 
 def members_of(en, w):
     return {m for m in en if int(m) and int(m) & w == int(m)}
+
+
+# PDUs whose own header states their extent (RFC 1006 TPKT length, X.224 length indicator, MS-RDPBCGR fixed 8-octet
+# negotiation structures, MySQL 3-byte packet length, OpenVPN TCP 2-byte length, PostgreSQL Int32 length, BER length)
+SELF_DELIMITING = ('TPKT', 'COTPConnectionRequest', 'COTPConnectionConfirm', 'RDPNegotiationRequest',
+                   'RDPNegotiationResponse', 'MySQLRecord', 'OpenVpnPacketWrapperTcp', 'SslRequest', 'Sync',
+                   'LDAPExtendedRequestStartTLS', 'LDAPExtendedResponseStartTLS')
 
 
 def both_ways(acc, cls, wire, obj_maker, label, fields_check, w):
@@ -37,6 +44,21 @@ def both_ways(acc, cls, wire, obj_maker, label, fields_check, w):
             if bad:
                 acc.violation('%s:fields:%s' % (label, bad), 'field %s of a parsed %s differs from the encoded value'
                               % (bad, cls.__name__), w)
+    if o is not None and type(o) is cls and cls.__name__ in SELF_DELIMITING:
+        # a PDU that carries its own length is the same PDU when more data follows it in the buffer
+        acc.counters['transitions'] = acc.counters.get('transitions', 0) + 2
+        for tail in (b'\x03\x00\x00\x0b', wire):
+            try:
+                o2, n2 = cls.parse_immutable(wire + tail)
+            except Exception as e:  # noqa
+                acc.violation('%s:followed_by_data:%s' % (label, type(e).__name__), 'specification encoding of a %s is '
+                              'rejected when %d more octets follow it' % (cls.__name__, len(tail)), dict(w, tail=tail))
+                break
+            if n2 != len(wire) or canon.dump(o2, eq=True) != canon.dump(o, eq=True):
+                acc.violation('%s:followed_by_data:differs' % label, 'a %s followed by %d more octets parses with n=%d '
+                              '(the PDU is %d octets) / to different fields' % (cls.__name__, len(tail), n2, len(wire)),
+                              dict(w, tail=tail))
+                break
     if obj_maker is not None:
         try:
             got = bytes(obj_maker().compose())
